@@ -15,6 +15,10 @@ TLA_CP = "/opt/veriftools/tla/tla2tools.jar:/opt/veriftools/tla/CommunityModules
 NOVAL = 99
 
 
+class HarnessCrash(Exception):
+    """exit 101 of the harness: reported as a violation (see Ctx.harness)"""
+
+
 class ToolError(Exception):
     pass
 
@@ -151,6 +155,12 @@ class Ctx:
                                text=True, timeout=timeout)
         except subprocess.TimeoutExpired:
             raise ToolError("harness timeout: %s" % " ".join(cmd))
+        if p.returncode == 101:
+            # the driver itself panicked: the code under test panicked at a place where the driver (which runs clean on the
+            # unchanged tree) expects no panic, e.g. while projecting a state the call left unusable.  That is an observation
+            # about the code, not a tool error.
+            self.crash_violation(cmd, p.stderr)
+            raise HarnessCrash("harness crashed (101): %s" % " ".join(cmd))
         if p.returncode != 0:
             raise ToolError("harness failed (%d): %s\n%s" % (p.returncode, " ".join(cmd), p.stderr[-2000:]))
         info = {}
@@ -328,6 +338,19 @@ class Ctx:
             log("  unmatched record: %s" % json.dumps(bad)[:500])
             if prev is not None:
                 log("  last matched    : %s" % json.dumps(prev)[:500])
+        log("VIOLATION property=%s replay=%s" % (self.pid, path))
+
+    def crash_violation(self, cmd, stderr):
+        tail = [l for l in stderr.strip().splitlines() if l.strip()][-6:]
+        body = {"property": self.pid, "tier": self.tier, "seed": self.seed, "meta": {"driver": "crash", "cmd": cmd},
+                "first_unmatched": {"crash": tail}, "last_matched": None, "acts": [], "header": None,
+                "note": "the harness driver panicked: an unexpected panic of the code under test"}
+        digest = hashlib.md5(json.dumps([self.pid, cmd[1:3], tail[-1:] if tail else ""], sort_keys=True).encode()).hexdigest()[:10]
+        path = os.path.join(ROOT, "replays", "%s-%s.json" % (self.pid, digest))
+        with open(path, "w") as f:
+            json.dump(body, f, indent=1)
+        self.violations.append({"replay": path, "record": body["first_unmatched"]})
+        log("  harness driver panicked: %s" % " | ".join(tail)[-600:])
         log("VIOLATION property=%s replay=%s" % (self.pid, path))
 
     def direct_violation(self, what, case, replay_meta):
